@@ -229,7 +229,7 @@ def canon_model(t):
     for o, lv in t:
         o = list(o)
         if o and o[0] == 3:
-            o = [3] + sorted(o[1:])
+            o = [3] + sorted(set(o[1:]))   # a Python set: duplicates in the list model are immaterial
         out.append((o, [sorted(l) for l in lv]))
     return out
 
